@@ -40,7 +40,11 @@ def run(chk, recorder="prefix-record", tag="c08"):
             finally:
                 os.environ.pop("YV_PREFIX_NOSIG", None)
             tf = os.path.join(wd, "ind_witness_%s.ndjson" % name)
-            n = lines_of(run_harness(yv, ["ind-prefix-record", kf["witness_seed"], 12, 30, tf, name]))[0]["events"]
+            os.environ["YV_PREFIX_WITNESS"] = json.dumps(kf["witness_doc"])
+            try:
+                n = lines_of(run_harness(yv, ["ind-prefix-record", 1, 1, 5, tf, name]))[0]["events"]
+            finally:
+                os.environ.pop("YV_PREFIX_WITNESS", None)
             jobs.append((tf, n))
 
     def val(job):
